@@ -299,7 +299,7 @@ pub fn run(cx: &mut Ctx) {
             check(c, &b, "single_slot");
         });
     }
-    let n = cx.a.n(3_000, 200_000);
+    let n = cx.a.n(20_000, 300_000);
     for _ in 0..n {
         cx.case("random", |c| {
             let mut rng = c.rng.clone();
